@@ -136,7 +136,14 @@ class Unit:
 
 def _apply_rw(unit, f, text, rule, rx, repl, opts, where):
     try:
-        new, n = re.subn(rx, repl, text, flags=re.M | re.S if opts.get('dotall') else re.M)
+        if opts.get('pad'):
+            # multi-line match replaced by a shorter text: pad with newlines so that the line count is preserved
+            def _padded(m):
+                out = m.expand(repl)
+                return out + '\n' * max(0, m.group(0).count('\n') - out.count('\n'))
+            new, n = re.subn(rx, _padded, text, flags=re.M | re.S if opts.get('dotall') else re.M)
+        else:
+            new, n = re.subn(rx, repl, text, flags=re.M | re.S if opts.get('dotall') else re.M)
     except re.error as e:
         raise ExtractError('bad regex in rule %s: %s' % (rule, e))
     if new.count('\n') != text.count('\n'):
